@@ -812,6 +812,10 @@ func c10Run(c c10Case) (v vVerdict) {
 			}, 8*time.Second)
 		case "wait":
 			time.Sleep(time.Duration(1+op.N%10) * time.Millisecond)
+		case "waitlong": // C17 workloads: long enough for the once-a-second status tickers to fire while the run goes on
+			if op.N > 0 && op.N <= 2000 {
+				time.Sleep(time.Duration(op.N) * time.Millisecond)
+			}
 		case "garbage":
 			// a UDP port receives whatever arrives: a datagram that is not a data packet (port scan, wrong sender) must be
 			// just noise - Stop still returns, the source still restarts (nothing else is asserted about it)
